@@ -144,6 +144,40 @@ func runC05(s *kernel.Sim) {
 		f.resp = append(f.resp, loop...)
 		mutations = append(mutations, fmt.Sprintf("resp-loop-over-request-keys%v", loop))
 	}
+	if tp.Chance(1, 4) {
+		// references to flows: to itself, to the second flow (when there is one), to a
+		// flow that does not exist; as the start of the request direction or as the
+		// target of a response connection, as in the shipped samples - or anywhere
+		refs := []string{"f0", "f1", "ghost"}
+		for k := tp.Range(1, 2); k > 0; k-- {
+			ref := refs[tp.Choose(3)]
+			var c c04conn
+			inResp := tp.Chance(1, 2)
+			pool := names
+			if len(pool) == 0 {
+				break
+			}
+			n := pool[tp.Choose(len(pool))]
+			switch tp.Choose(3) {
+			case 0: // sample shape
+				if inResp {
+					c = c04conn{from: n, toFlow: ref + "@start"}
+				} else {
+					c = c04conn{fromFlow: ref + "@end", to: n}
+				}
+			case 1:
+				c = c04conn{fromFlow: ref + "@" + []string{"start", "end"}[tp.Choose(2)], to: n}
+			default:
+				c = c04conn{from: n, cond: conds[tp.Choose(2)], toFlow: ref + "@" + []string{"start", "end"}[tp.Choose(2)]}
+			}
+			if inResp {
+				f.resp = append(f.resp, c)
+			} else {
+				f.req = append(f.req, c)
+			}
+			mutations = append(mutations, fmt.Sprintf("flow-reference:%v:resp=%v", c, inResp))
+		}
+	}
 	yaml := f.def("a.com/c").YAML()
 	// textual mutations of the YAML
 	textual := []int{8, 1, 1, 1, 1}
